@@ -937,6 +937,108 @@ def part_backings(c, bindir_san, hx):
 
 
 # ---------------------------------------------------------------------------
+# records / lines that are large relative to the readers' internal buffers
+
+def warc_big_header(cl_offset, total_hdr=0, body=b"hello world", pad=40, straddle=b"Content-Length"):
+    """A valid WARC record whose header block is tens of KiB: the line `straddle` starts exactly at byte cl_offset of the record
+    (so it can be put across any point at which WARCReader's string has to grow while the header is still being read)."""
+    out = b"WARC/1.0\r\nWARC-Type: resource\r\n"
+    i = 0
+    while True:
+        line = b"X-Pad-%05d: %s\r\n" % (i, b"p" * pad)
+        if len(out) + len(line) + 12 > cl_offset:
+            break
+        out += line
+        i += 1
+    rest = cl_offset - len(out)
+    if rest:
+        out += b"X-Fill: " + b"f" * (rest - 10) + b"\r\n"
+    assert len(out) == cl_offset
+    if straddle == b"Content-Length":
+        out += b"Content-Length: %d\r\n" % len(body)
+    else:
+        out += b"X-Straddle-Here: %s\r\n" % (b"s" * 30) + b"Content-Length: %d\r\n" % len(body)
+    while total_hdr and len(out) + 60 < total_hdr:
+        out += b"X-Tail-%05d: %s\r\n" % (i, b"t" * pad)
+        i += 1
+    return out + b"\r\n" + body + b"\r\n\r\n"
+
+
+def part_large_records(c, bindir_san, hx):
+    import gzip
+    rng = c.rng
+    quick = c.tier == "quick"
+    jobs = []    # (tool, name, stdin kind, bytes, expected stdout or None)
+    # (1) WARC header blocks of 20-70 KiB, one header line placed across every point where a 4096-byte ReadMore() can make the
+    #     record string (reserve 32768, then doubling; later records inherit the capacity of the overhang) reallocate: k*4096 and
+    #     6 + k*4096 (ReadCompressed hands over the 6 magic-detection bytes first), the line starting 1..23 bytes before it
+    wp = tr.Tool("warc_parallel", ["-j", "1", "cat"], b"", kind="wrapper", label="warc_parallel")
+    grow = [28672, 32768, 61440, 65536] if quick else [4096, 8192, 16384, 20480, 24576, 28672, 32768, 36864, 45056, 57344, 61440, 65536, 69632]
+    for base in grow:
+        for delta in (0, 6):
+            ds = (2, 6, 10, 14, 18) if (quick and base == 28672) else ((rng.randrange(1, 20),) if quick else range(1, 24))
+            for d in ds:
+                for straddle in ((b"Content-Length",) if quick else (b"Content-Length", b"X")):
+                    data = warc_big_header(base + delta - d, total_hdr=rng.choice([0, 0, base + 9000]), straddle=straddle)
+                    jobs.append((wp, "warc-header-%d%+d-%d-%s" % (base, delta, d, straddle.decode()), "file", data, data))
+    for i in range(3 if quick else 40):
+        sizes = [rng.randrange(20000, 72000) for _ in range(rng.randrange(2, 5))]
+        recs = [warc_big_header(rng.randrange(200, n - 100), total_hdr=n, body=bytes(rng.randrange(256) for _ in range(rng.choice([0, 11, 5000])))) for n in sizes]
+        data = b"".join(recs)
+        jobs.append((wp, "warc-big-headers-x%d-%d" % (len(recs), i), "file", data, data))
+        jobs.append((wp, "warc-big-headers-x%d-%d" % (len(recs), i), "pipe", data, data))
+        jobs.append((wp, "warc-big-headers-x%d-%d" % (len(recs), i), "gz-file", gzip.compress(data), data))
+    # (2) a regular file on stdin (mmap backend of util::FilePiece) whose multi-megabyte line does NOT start on a page boundary
+    #     and is longer than FilePiece's 1 MiB + 4 KiB window: every tool must come back (timeout = violation)
+    shapes = [(6, 3000000)] if quick else [(6, 3000000), (1, 1052673), (6, 1052672 + 4096 + 1), (4095, 2200000), (4097, 2200000), (100000, 2105344), (6, 4300000)]
+    for t in tr.catalogue():
+        if not t.reads_stdin:
+            continue
+        args = t.args
+        if t.kind == "wrapper":
+            args = ["-j", "1", "cat"] if t.name == "warc_parallel" else list(t.args[:-3]) + ["cat"]
+        for first, longlen in shapes:
+            data = b"s" * (first - 1) + b"\n" + b"a" * longlen + b"\n" + b"tail\n"
+            tt = tr.Tool(t.name, args, b"", t.files, t.outputs, t.kind, t.label)
+            jobs.append((tt, "offset-long-line-%d+%d" % (first, longlen), "file", data, None))
+            if not quick:
+                jobs.append((tt, "offset-long-line-%d+%d" % (first, longlen), "gz-file", gzip.compress(data), None))
+
+    def work(j):
+        t, name, how, data, expect = j
+        with tr.Scratch(SCRATCH, t) as w:
+            env = dict(os.environ, **SAN_ENV)
+            if how == "pipe":
+                rc, out, err = tr.run(t.argv(bindir_san, w, hx), data, timeout=20, env=env, cwd=w)
+            else:
+                sp = os.path.join(w, "stdin.bin")
+                with open(sp, "wb") as f:
+                    f.write(data)
+                with open(sp, "rb") as f:
+                    rc, out, err = tr.run(t.argv(bindir_san, w, hx), timeout=20, env=env, cwd=w, stdin_file=f)
+            return j, rc, out, err
+
+    with ThreadPoolExecutor(WORKERS) as ex:
+        results = list(ex.map(work, jobs))
+    for (t, name, how, data, expect), rc, out, err in results:
+        kind, detail = classify(rc, err)
+        c.count(("large", t.label, name, how), bucket="large-records/%s/%s" % (name.split("-")[0], kind))
+        small = len(data) <= 4096
+        rep = {"tool": t.label, "executable": t.name, "argv": t.argv("$BIN", "$W", "$HX"), "stream": name, "stdin_backing": how,
+               "stdin_hex": hexs(data) if small else None,
+               "stdin_desc": None if small else "%d bytes; regenerate with warc_big_header / part_large_records in checks/C20.py (name encodes the parameters: "
+                                                "warc-header-<growth point><+0|+6>-<bytes before it>-<line>; offset-long-line-<first line bytes>+<long line bytes>)" % len(data),
+               "status": rc, "report": detail, "stderr_tail": err.decode("utf-8", "replace")[-600:],
+               "how": "build flavour '%s'; stdin = %s; %s" % (SAN, how, " ".join(t.argv("$BIN", "$W", "$HX")))}
+        if kind != "ok":
+            c.violation("%s: %s on '%s' (stdin: %s): %s" % (kind, t.name, name, how, detail), rep)
+        elif expect is not None and (rc != 0 or out != expect):
+            rep["report"] = "valid records not passed through unchanged"
+            c.violation("valid-input-rejected: %s -j 1 cat on '%s' (stdin: %s): status %s, %d bytes out for %d bytes of valid records: %s" % (
+                t.name, name, how, rc, len(out), len(expect), err.decode("utf-8", "replace")[-160:]), rep)
+
+
+# ---------------------------------------------------------------------------
 # substitute: structured lines with 4..8 tab-separated fields; every output line may only contain fields of its own
 # input line and values remembered from earlier lines with the same key
 
@@ -1030,6 +1132,7 @@ def main(argv):
     for name, fn in (("formatters+streams", lambda: part_formatters(c, drv, kconst)),
                      ("leaf parsers at a page end", lambda: part_leaf(c)),
                      ("file backings", lambda: part_backings(c, os.path.dirname(repo_bin("x", SAN)), os.path.dirname(hx_bin("x")))),
+                     ("large records", lambda: part_large_records(c, os.path.dirname(repo_bin("x", SAN)), os.path.dirname(hx_bin("x")))),
                      ("substitute structured", lambda: part_substitute(c, os.path.dirname(repo_bin("x", SAN)), os.path.dirname(hx_bin("x")))),
                      ("sanitizer sampling", lambda: part_tools(c, os.path.dirname(repo_bin("x", SAN)), os.path.dirname(hx_bin("x")), os.path.dirname(repo_bin("x")))),
                      ("sanitizer under faults", lambda: part_faults_sanitized(c, os.path.dirname(repo_bin("x", SAN)), os.path.dirname(hx_bin("x")))),
